@@ -1,5 +1,6 @@
 import Slock.Proofs.ReplRun
 import Slock.Proofs.ReplSync
+import Slock.Proofs.ReplConv
 /-!
 # C09 — followers apply the leader's log exactly and converge
 
@@ -110,54 +111,143 @@ example : (step (run (Sys.init 128 256) demoOps) (.pop 0)).2 = .res .ok
     { cur := some 0, bufId := 5, bufOrd := 4, dlen := 0, seq := 4, writed := false } := by decide
 
 /-!
-## Part 2: the SYNC handshake (model `Slock.Repl.Sync`: `append`, `connect f`, `deliver f`, `cut f`)
+## Part 2: the SYNC handshake (model `Slock.Repl.Sync`)
 
-The full statement `C09_resync` — "after any pattern of connects / cuts / delivers the follower's applied log is a prefix of
-the leader's log" — is FALSE for the unchanged code, in two ways (both by `decide` on the executable model; the handshake
-half of the model is a reading of the code, not differentially tested):
+Events: `append` (leader publishes a record), `connect f` (handshake, decided as `handleInitSync` does from the reported id:
+resume / transfer from scratch / not-found-then-scratch), `start f` (the client's "started" message: AddPoll, file phase or
+stream begins), `deliver f` (one file record, the end-of-files marker, or one `SendProcess` iteration), `cut f` (connection
+lost at a message boundary, both processes live on), `restartSame f` / `restartEmpty f` (follower process restarted on the
+same / an empty data dir).
 
-* `C09_resync_fails_early_cut`: `ReplicationClient.InitSync` stores the id H answered by the leader as its own
-  `currentAofId` BEFORE any record has arrived (`self.currentAofId = aofId` right before `recvFiles()`), after having reset
-  its log. If the connection is cut before the first file record arrives, the reconnect reports H as "last applied",
-  `handleInitSync` finds H in the buffer and resumes after it: the follower holds NONE of the records 1 … H and is
-  silently streamed H+1, H+2, ….
-* `C09_resync_fails_empty_buffer`: when the buffer is empty at the handshake (`Head` = EOF) the channel's cursor keeps no
-  position (`seq = 0xffffffffffffffff`), so its first `Pop` takes whatever is the oldest buffered record without the
-  continuity check; records published and already recycled before that first `Pop` are skipped silently.
+`SInv` (lean/Slock/Proofs/ReplConv.lean) is the invariant: the queue invariant `Inv`; record k has id k; and for EVERY
+follower: its applied log is `1 … m`, m ≤ n (= the first m records of the leader's log — during a transfer from scratch m is
+the number of file records received so far), its channel's cursor is consistent with the buffer, and per phase: `off` ⇒ the
+id it will report is m; `wait` ⇒ the cursor is where `Search` / `Head` put it; `files H pos` ⇒ m = pos < H; `stream` ⇒ the
+cursor's item is record m (written) or m+1 (in hand) — or the cursor has no position and m = 0. It is proved preserved by
+every event kind (`append_step`, `connect_step`, `start_step`, `deliverFiles_step`, `deliverStream_step`, `cut_step`,
+`restartSame_step`, `restartEmpty_step`) and hence, by induction over the list, after every guarded sequence of ANY length.
+
+Guards (`EvOk`, decidable; `SGuarded` = every event of the sequence satisfies its guard in the state it is applied to) —
+each excludes exactly one recorded defect of the unchanged code, and for each the counterexample below shows it is needed:
+* `start`: `AddGuard` — the cursor's item was not recycled into the free list between `connect` and "started"
+  (`C09_resync_fails_stale_addpoll`; queue level: `C09_no_gap_fails`);
+* `cut`: `CutGuard` — the id the live follower will report is the id of the last record it has applied; false exactly
+  between "started" of a transfer from scratch and the arrival of its first record (`C09_resync_fails_early_cut`);
+* `deliver` (stream): `FreshGuard` — a cursor without a position (handshake answered on an empty buffer) takes its first
+  record while record 1 is still buffered (`C09_resync_fails_empty_buffer`);
+* `append`: fewer than 2^64-1 records; and `numStarts < 2^32-1` (uint32 pollCount).
+ASSUMED AWAY (not a guard, a modelling decision): `LoadAofFile`'s per-record filter — the file phase transfers every record
+with id < H, i.e. no record's own deadline passes during the run (finding `expired-record`, process level).
+That RemovePoll only undoes an AddPoll is proved here (pollCount = number of registered channels), not assumed.
 -/
 
-def earlyCut : List Ev := [.append 0, .append 0, .connect 1, .cut 1, .connect 1, .append 0, .deliver 1, .deliver 1, .deliver 1]
+/-- the invariant after every guarded event sequence of any length -/
+theorem C09_sync_inv (b m : Nat) (evs : List Ev) (hg : SGuarded (Sync.init b m) evs) (hA : numStarts evs < M32) :
+    ∃ hist, SInv (numStarts evs) (srun (Sync.init b m) evs) hist := by
+  have := srun_inv evs (sinv_init b m) hg (by omega)
+  simpa using this
 
+/-- RESYNC: after any guarded pattern of appends, connects, starts, deliveries, cuts and restarts, every follower's applied
+log is a prefix of the leader's log (the first m records, nothing skipped, duplicated or reordered) — also right after it
+was reset for a transfer from scratch and while that transfer is in progress. -/
+theorem C09_resync (b m : Nat) (evs : List Ev) (hg : SGuarded (Sync.init b m) evs) (hA : numStarts evs < M32) (f : Nat) :
+    let s := srun (Sync.init b m) evs
+    (getF s.fols f).log = s.log.take (getF s.fols f).log.length ∧ (getF s.fols f).log.length ≤ s.log.length := by
+  obtain ⟨hist, h⟩ := C09_sync_inv b m evs hg hA
+  exact sinv_prefix h f
+
+/-- CONVERGE: in any state reached by a guarded event sequence in which follower f is connected, its file phase is finished
+(phase `stream`) and everything published has been delivered (one more `deliver f` finds nothing: the item in hand is
+written and `Pop` = EOF), the follower's applied log IS the leader's log. -/
+theorem C09_converge (b m : Nat) (evs : List Ev) (hg : SGuarded (Sync.init b m) evs) (hA : numStarts evs < M32) (f : Nat)
+    (hc : (getF (srun (Sync.init b m) evs).fols f).conn = .stream)
+    (hi : (sstep (srun (Sync.init b m) evs) (.deliver f)).2 = .idle) :
+    (getF (srun (Sync.init b m) evs).fols f).log = (srun (Sync.init b m) evs).log := by
+  obtain ⟨hist, h⟩ := C09_sync_inv b m evs hg hA
+  exact sinv_converge h f hc hi
+
+/-! ### each guard is needed: the unchanged code violates RESYNC / CONVERGE without it -/
+
+def earlyCut : List Ev :=
+  [.append 0, .append 0, .connect 1, .start 1, .cut 1, .connect 1, .start 1, .append 0, .deliver 1, .deliver 1]
+
+/-- `CutGuard` is needed. `ReplicationClient.InitSync` stores the id H answered by the leader as its own `currentAofId`
+BEFORE any record has arrived. Cut there: the reconnect reports H, `handleInitSync` finds H in the buffer and resumes
+after it; the follower holds none of the records 1 … H, and "everything delivered" (`idle`) is reached with log `[3]`.
+(Confirmed on real processes, scenario `filecut0`.) The sequence fails `SGuarded` exactly at the `cut`. -/
 theorem C09_resync_fails_early_cut :
     (srun (Sync.init 256 256) earlyCut).log = [1, 2, 3] ∧
     (getF (srun (Sync.init 256 256) earlyCut).fols 1).log = [3] ∧
     (getF (srun (Sync.init 256 256) earlyCut).fols 1).conn = .stream ∧
-    (sstep (srun (Sync.init 256 256) earlyCut) (.deliver 1)).2 = .idle := by decide
+    (sstep (srun (Sync.init 256 256) earlyCut) (.deliver 1)).2 = .idle ∧
+    ¬ SGuarded (Sync.init 256 256) earlyCut ∧
+    SGuarded (Sync.init 256 256) (earlyCut.take 4) ∧ ¬ EvOk (srun (Sync.init 256 256) (earlyCut.take 4)) (.cut 1) := by decide
 
-def emptyBuffer : List Ev := [.connect 1, .append 0, .append 0, .append 0, .deliver 1, .deliver 1, .deliver 1]
+def emptyBuffer : List Ev := [.connect 1, .start 1, .append 0, .append 0, .append 0, .deliver 1, .deliver 1, .deliver 1]
 
+/-- `FreshGuard` is needed. Handshake on an empty buffer: the cursor keeps no position, its first `Pop` takes the oldest
+buffered record without the continuity check; with a 64-byte buffer records 1 and 2 are gone by then. -/
 theorem C09_resync_fails_empty_buffer :
     (srun (Sync.init 64 64) emptyBuffer).log = [1, 2, 3] ∧
     (getF (srun (Sync.init 64 64) emptyBuffer).fols 1).log = [3] ∧
-    (sstep (srun (Sync.init 64 64) emptyBuffer) (.deliver 1)).2 = .idle := by decide
+    (sstep (srun (Sync.init 64 64) emptyBuffer) (.deliver 1)).2 = .idle ∧
+    ¬ SGuarded (Sync.init 64 64) emptyBuffer ∧
+    SGuarded (Sync.init 64 64) (emptyBuffer.take 6) ∧ ¬ EvOk (srun (Sync.init 64 64) (emptyBuffer.take 6)) (.deliver 1) := by decide
 
-/-- RESYNC (`_partial`), resume: a follower whose log is `1 … m` and which reports `m` is positioned by `Search` exactly
-after record m (`StreamOk`). Missing for the full statement: the client may report an id it has not applied (above). -/
+def staleStart : List Ev :=
+  [.append 0, .connect 1, .append 200, .append 0, .append 0, .append 200, .append 0, .start 1,
+   .deliver 1, .deliver 1, .deliver 1, .deliver 1, .deliver 1, .deliver 1]
+
+/-- `AddGuard` is needed. `Head` positions the channel's cursor on record 1 (seq 0); before the "started" message arrives
+five pushes recycle that item and two more into the free list; AddPoll then walks the free list; the follower is sent
+record 1, then the stale items 3 and 4, then EOF for ever: log `[1, 3, 4]` of 6. -/
+theorem C09_resync_fails_stale_addpoll :
+    (srun (Sync.init 256 256) staleStart).log = [1, 2, 3, 4, 5, 6] ∧
+    (getF (srun (Sync.init 256 256) staleStart).fols 1).log = [1, 3, 4] ∧
+    (sstep (srun (Sync.init 256 256) staleStart) (.deliver 1)).2 = .idle ∧
+    ¬ SGuarded (Sync.init 256 256) staleStart ∧
+    SGuarded (Sync.init 256 256) (staleStart.take 7) ∧ ¬ EvOk (srun (Sync.init 256 256) (staleStart.take 7)) (.start 1) := by decide
+
+/-! ### the guards are satisfiable: a guarded run through every event kind and every handshake answer -/
+
+/-- transfer from scratch with a file phase, stream, cut, resume by id, restart on the same dir (resume), restart on an empty
+dir (scratch again), a second follower that falls out of the buffer (not-found → scratch) -/
+def tour : List Ev :=
+  [.append 0, .append 5, .connect 1, .start 1, .deliver 1, .deliver 1, .append 0, .deliver 1, .deliver 1, .deliver 1, .cut 1,
+   .append 0, .append 0, .connect 1, .start 1, .deliver 1, .deliver 1, .deliver 1, .deliver 1, .restartSame 1, .append 0,
+   .connect 1, .start 1, .deliver 1, .deliver 1, .restartEmpty 1, .connect 1, .start 1, .deliver 1, .deliver 1, .deliver 1,
+   .deliver 1, .deliver 1, .deliver 1, .deliver 1, .deliver 1, .connect 2, .start 2, .deliver 2, .cut 2]
+
+set_option maxRecDepth 20000 in
+example : SGuarded (Sync.init 256 256) tour ∧ numStarts tour < M32 := by decide
+set_option maxRecDepth 20000 in
+example : (getF (srun (Sync.init 256 256) tour).fols 1).conn = .stream ∧
+    (sstep (srun (Sync.init 256 256) tour) (.deliver 1)).2 = .idle ∧
+    (getF (srun (Sync.init 256 256) tour).fols 1).log = [1, 2, 3, 4, 5, 6] := by decide
+-- every answer of the handshake occurs under the guards
+set_option maxRecDepth 20000 in
+example : (sstep (srun (Sync.init 256 256) (tour.take 2)) (.connect 1)).2 = .full 2 ∧
+    (sstep (srun (Sync.init 256 256) (tour.take 13)) (.connect 1)).2 = .resume 3 ∧
+    (sstep (srun (Sync.init 128 128) [.append 0, .connect 1, .start 1, .deliver 1, .deliver 1, .cut 1, .append 0, .append 0, .append 0])
+      (.connect 1)).2 = .retryFull 4 ∧
+    SGuarded (Sync.init 128 128) [.append 0, .connect 1, .start 1, .deliver 1, .deliver 1, .cut 1, .append 0, .append 0, .append 0, .connect 1] := by decide
+-- a guarded `cut` in the file phase (after the first file record) and a guarded `deliver` of a cursor without position
+example : SGuarded (Sync.init 256 256) [.append 0, .append 0, .append 0, .connect 1, .start 1, .deliver 1, .cut 1, .connect 1] ∧
+    SGuarded (Sync.init 256 256) [.connect 1, .start 1, .append 0, .deliver 1, .deliver 1, .deliver 1] := by decide
+
+/-! ### per-step statements (kept; the induction above supersedes them) -/
+
+/-- resume: a follower whose log is `1 … m` and which reports `m` is positioned by `Search` exactly after record m -/
 theorem C09_resume_partial {A q hist} {f : Fol} {c' : Cursor} (h : Inv A q hist) (hh : HistOk hist) (hq : q.seq < seqNone)
     (hpre : Prefix1 f.log) (hid : f.curId = f.log.length) (hp : search q f.curId newCursor = (.ok, c')) :
     StreamOk q { f with conn := .stream, cur := c' } := resume_streamOk h hh hq hpre hid hp
 
-/-- RESYNC (`_partial`), from scratch with a non-empty buffer: `Head` answered H and the file phase delivered `1 … H-1`;
-the stream starts with record H. -/
+/-- from scratch with a non-empty buffer: `Head` answered H and the file phase delivered `1 … H-1`; the stream starts with H -/
 theorem C09_full_partial {A q hist} {f : Fol} {c' : Cursor} (h : Inv A q hist) (hh : HistOk hist) (hq : q.seq < seqNone)
     (hp : head q newCursor = (.ok, c')) (hpre : Prefix1 f.log) (hlen : f.log.length + 1 = c'.bufId) :
     StreamOk q { f with conn := .stream, cur := c' } := full_streamOk h hh hq hp hpre hlen
 
-/-- RESYNC (`_partial`), streaming: in every queue state satisfying the invariant (all reachable ones, `reachable_inv`)
-one `SendProcess` iteration applies exactly the next record (m+1) at the follower or nothing, and keeps `StreamOk`;
-if the cursor was overtaken the channel closes with the follower's log and id untouched (it reconnects and is resumed or
-resynchronised from scratch by the handshake). By induction, ANY number of stream steps interleaved with pushes keeps the
-follower's log a prefix `1 … m` of the leader's. Not mechanised: the induction over connect / cut / file-phase events. -/
+/-- one `SendProcess` iteration applies exactly record m+1 or nothing; on "out of buf" the channel closes, log and id untouched -/
 theorem C09_resync_partial {A q hist} {f : Fol} (h : Inv A q hist) (hA : A < M32) (hh : HistOk hist) (hq : q.seq < seqNone)
     (hs : StreamOk q f) :
     ((streamStep q f).2.1.conn = .off ∧ (streamStep q f).2.1.log = f.log ∧ (streamStep q f).2.1.curId = f.curId) ∨
@@ -166,34 +256,13 @@ theorem C09_resync_partial {A q hist} {f : Fol} (h : Inv A q hist) (hA : A < M32
       ((streamStep q f).2.1.log = f.log ∨ (streamStep q f).2.1.log = f.log ++ [f.log.length + 1])) :=
   streamStep_ok h hA hh hq hs
 
-/-- pushes by the leader keep a streaming follower consistent (its cursor may become overtaken, which the next step reports) -/
 theorem C09_push_keeps_stream {A q hist} {f : Fol} (h : Inv A q hist) (hs : StreamOk q f) (id ord dlen : Nat) :
     StreamOk (push q id ord dlen) f :=
   ⟨hs.pos, push_curOk h hs.cur id ord dlen, fun sid hsid => push_has id ord dlen (hs.has sid hsid), hs.pre, hs.at_⟩
 
-/-- CONVERGE (`_partial`): leader quiescent, follower connected in the stream phase and consistent (`StreamOk`), and the
-channel finds nothing more to deliver (`idle`: the item in hand is written and `Pop` = EOF) ⇒ the follower's applied log
-is exactly `1 … n`, the leader's log. Missing: `StreamOk` is established by `C09_resume_partial` / `C09_full_partial` only
-under their hypotheses (see the two counterexamples). -/
 theorem C09_converge_partial {A q hist} {f : Fol} (h : Inv A q hist) (hs : StreamOk q f)
     (hi : (streamStep q f).2.2 = .idle) : f.log = List.range' 1 q.seq := by
   have := streamStep_idle h hs hi
   rw [← this]; exact hs.pre
-
-/-- the model's leader log is `1 … n` after any event sequence (so `List.range' 1 q.seq` above IS the leader's log) -/
-example : (srun (Sync.init 256 1024) [.append 0, .append 5, .connect 1, .deliver 1, .append 0]).log = List.range' 1 3 := by decide
-
-/-- full transfer, stream, cut, resume by id, stream: the follower ends with the leader's log -/
-def happy : List Ev :=
-  [.append 0, .append 0, .connect 1, .deliver 1, .deliver 1, .append 0, .deliver 1, .deliver 1, .cut 1, .append 0, .append 0,
-   .connect 1, .deliver 1, .deliver 1, .deliver 1, .deliver 1, .deliver 1, .deliver 1]
-
-example : (getF (srun (Sync.init 256 1024) happy).fols 1).log = [1, 2, 3, 4, 5] ∧
-    (srun (Sync.init 256 1024) happy).log = [1, 2, 3, 4, 5] ∧
-    (sstep (srun (Sync.init 256 1024) happy) (.deliver 1)).2 = .idle := by decide
-
-/-- a follower whose position has left the (tiny) buffer is told ERR_NOT_FOUND and starts from scratch -/
-example : (sstep (srun (Sync.init 128 128) [.append 0, .connect 1, .deliver 1, .deliver 1, .cut 1, .append 0, .append 0, .append 0])
-    (.connect 1)).2 = .retryFull 4 := by decide
 
 end Slock.C09
